@@ -28,6 +28,11 @@ func init() {
 			if got := transform.Complement(cs.S); got != cs.Comp {
 				return bad("Complement(%q) = %q, specification %q", cs.S, got, cs.Comp)
 			}
+			for i, r := range cs.S { // the per-base entry point (IUPAC strings are ASCII: i is the letter's index)
+				if got := transform.ComplementBase(r); string(got) != cs.Comp[i:i+1] {
+					return bad("ComplementBase(%q) = %q, specification %q", r, got, cs.Comp[i:i+1])
+				}
+			}
 			if got := transform.Reverse(cs.S); got != cs.Rev {
 				return bad("Reverse(%q) = %q, specification %q", cs.S, got, cs.Rev)
 			}
